@@ -26,6 +26,7 @@ import (
 	"github.com/ipfs/boxo/ipld/unixfs/importer/balanced"
 	h "github.com/ipfs/boxo/ipld/unixfs/importer/helpers"
 	"github.com/ipfs/boxo/ipld/unixfs/importer/trickle"
+	"github.com/ipfs/boxo/path"
 	ufile "github.com/ipfs/boxo/ipld/unixfs/file"
 	ds "github.com/ipfs/go-datastore"
 	dssync "github.com/ipfs/go-datastore/sync"
@@ -40,6 +41,20 @@ import (
 type world struct {
 	dsv     ipld.DAGService
 	handler http.Handler
+	// the same blocks behind a CarBackend: its fetcher asks the BlocksBackend for the CAR a remote
+	// trustless gateway would send, so the file reader only has the blocks of the requested byte range
+	carHandler http.Handler
+}
+
+type localCarFetcher struct{ bb *gateway.BlocksBackend }
+
+func (f *localCarFetcher) Fetch(ctx context.Context, p path.ImmutablePath, params gateway.CarParams, cb gateway.DataCallback) error {
+	_, rc, err := f.bb.GetCAR(ctx, p, params)
+	if err != nil {
+		return err
+	}
+	defer rc.Close()
+	return cb(p, rc)
 }
 
 var theWorld *world
@@ -55,9 +70,14 @@ func getWorld() *world {
 	if err != nil {
 		panic(err)
 	}
+	carBackend, err := gateway.NewCarBackend(&localCarFetcher{backend})
+	if err != nil {
+		panic(err)
+	}
 	theWorld = &world{
-		dsv:     dag.NewDAGService(bsvc),
-		handler: gateway.NewHandler(gateway.Config{DeserializedResponses: true}, backend),
+		dsv:        dag.NewDAGService(bsvc),
+		handler:    gateway.NewHandler(gateway.Config{DeserializedResponses: true}, backend),
+		carHandler: gateway.NewHandler(gateway.Config{DeserializedResponses: true}, carBackend),
 	}
 	return theWorld
 }
@@ -78,6 +98,7 @@ type fileSpec struct {
 	raw           bool
 	cidv          int
 	mtime         int64
+	mnanos        int64
 }
 
 func (s fileSpec) String() string {
@@ -85,24 +106,24 @@ func (s fileSpec) String() string {
 	if s.raw {
 		raw = 1
 	}
-	return fmt.Sprintf("%d %d %s %d %d %d %d %d", s.seed, s.size, s.layout, s.chunk, s.links, raw, s.cidv, s.mtime)
+	return fmt.Sprintf("%d %d %s %d %d %d %d %d.%d", s.seed, s.size, s.layout, s.chunk, s.links, raw, s.cidv, s.mtime, s.mnanos)
 }
 
 // importFile builds the file with the real importer; it returns the root CID, the content and the
 // mtime the stored DAG really carries (a raw-leaf root has none, whatever was asked for).
-func importFile(w *world, s fileSpec) (string, []byte, int64, error) {
+func importFile(w *world, s fileSpec) (string, []byte, string, error) {
 	data := genContent(s.seed, s.size)
 	p, err := dag.PrefixForCidVersion(s.cidv)
 	if err != nil {
-		return "", nil, 0, err
+		return "", nil, "", err
 	}
 	params := h.DagBuilderParams{Maxlinks: s.links, RawLeaves: s.raw, CidBuilder: p, Dagserv: w.dsv}
-	if s.mtime != 0 {
-		params.FileModTime = time.Unix(s.mtime, 0)
+	if s.mtime != 0 || s.mnanos != 0 {
+		params.FileModTime = time.Unix(s.mtime, s.mnanos)
 	}
 	db, err := params.New(chunker.NewSizeSplitter(bytes.NewReader(data), int64(s.chunk)))
 	if err != nil {
-		return "", nil, 0, err
+		return "", nil, "", err
 	}
 	var nd ipld.Node
 	if s.layout == "bal" {
@@ -111,16 +132,16 @@ func importFile(w *world, s fileSpec) (string, []byte, int64, error) {
 		nd, err = trickle.Layout(db)
 	}
 	if err != nil {
-		return "", nil, 0, err
+		return "", nil, "", err
 	}
 	uf, err := ufile.NewUnixfsFile(context.Background(), w.dsv, nd)
 	if err != nil {
-		return "", nil, 0, err
+		return "", nil, "", err
 	}
 	defer uf.Close()
-	var actual int64
+	actual := "0 0"
 	if mt := uf.ModTime(); !mt.IsZero() {
-		actual = mt.Unix()
+		actual = fmt.Sprintf("%d %d", mt.Unix(), mt.Nanosecond())
 	}
 	return nd.Cid().String(), data, actual, nil
 }
@@ -333,15 +354,23 @@ func gen(r *vh.Rand, tier string, n int, emit func(vh.Case)) {
 		s.cidv = cr.Intn(2)
 		if cr.Chance(3, 10) {
 			s.mtime = baseTime + int64(cr.Intn(1000000))
+			if cr.Chance(1, 3) {
+				s.mnanos = int64(cr.Range(1, 999999999))
+			}
 		}
-		cidStr, _, actualMtime, err := importFile(w, s)
+		if cr.Chance(1, 40) { // Unix second 0 with a fraction: not "zero time"
+			s.mtime, s.mnanos = 0, int64(cr.Range(1, 999999999))
+		}
+		cidStr, _, actualStr, err := importFile(w, s)
 		if err != nil {
 			panic(err)
 		}
 		etag := `"` + cidStr + `"`
 		dir := `"DirIndex-` + assets.AssetHash + `_CID-` + cidStr + `"`
 		dagE := `"DagIndex-` + assets.AssetHash + `_CID-` + cidStr + `"`
-		c.Ops = append(c.Ops, fmt.Sprintf("file %s %s %s %d", s, cidStr, assets.AssetHash, actualMtime))
+		var actualMtime int64
+		fmt.Sscanf(actualStr, "%d", &actualMtime)
+		c.Ops = append(c.Ops, fmt.Sprintf("file %s %s %s %s", s, cidStr, assets.AssetHash, actualStr))
 		nreq := cr.Range(3, 9)
 		for j := 0; j < nreq; j++ {
 			method := "GET"
@@ -397,6 +426,10 @@ type reqSpec struct {
 }
 
 func doReq(w *world, cidStr string, q reqSpec) *httptest.ResponseRecorder {
+	return doReqH(w.handler, cidStr, q)
+}
+
+func doReqH(handler http.Handler, cidStr string, q reqSpec) *httptest.ResponseRecorder {
 	url := "/ipfs/" + cidStr
 	if q.fn {
 		url += "?filename=f.txt"
@@ -414,7 +447,7 @@ func doReq(w *world, cidStr string, q reqSpec) *httptest.ResponseRecorder {
 	set("If-Unmodified-Since", q.ius)
 	set("If-Modified-Since", q.ims)
 	rec := httptest.NewRecorder()
-	w.handler.ServeHTTP(rec, req)
+	handler.ServeHTTP(rec, req)
 	return rec
 }
 
@@ -514,7 +547,10 @@ func canonical(rec *httptest.ResponseRecorder, etag, dir, dagE string) string {
 }
 
 // monitor: the property's own predicate on one response
-func monitor(o *vh.Out, w *world, cidStr string, data []byte, q reqSpec, rec *httptest.ResponseRecorder) {
+// failFn reports a monitor failure; the CAR-backend shadow prefixes the sig with "car-"
+type failFn func(sig string, format string, a ...any)
+
+func monitor(fail failFn, handler http.Handler, cidStr string, data []byte, q reqSpec, rec *httptest.ResponseRecorder) {
 	res := rec.Result()
 	size := int64(len(data))
 	body := rec.Body.Bytes()
@@ -524,76 +560,75 @@ func monitor(o *vh.Out, w *world, cidStr string, data []byte, q reqSpec, rec *ht
 	specs, wellFormed := readRange(q.rg)
 	// (for error statuses the handler writes the error text through http.Error; the HTTP server drops it for HEAD)
 	if q.method == "HEAD" && len(body) != 0 && st < 300 {
-		o.Fail("head-has-body", "HEAD answered %d body bytes", len(body))
+		fail("head-has-body", "HEAD answered %d body bytes", len(body))
 	}
 	switch st {
 	case 200:
 		if cr != "" {
-			o.Fail("200-with-content-range", "200 with Content-Range %q", cr)
+			fail("200-with-content-range", "200 with Content-Range %q", cr)
 		}
 		if cl != strconv.FormatInt(size, 10) {
-			o.Fail("200-content-length", "200 Content-Length=%q size=%d", cl, size)
+			fail("200-content-length", "200 Content-Length=%q size=%d", cl, size)
 		}
 		if q.method == "GET" && !bytes.Equal(body, data) {
 			if q.ir != "" {
-				o.Fail("ifrange-200-partial-body", "200 with Content-Length=%s but body has %d bytes and is not the file (Range=%q If-Range=%q)", cl, len(body), q.rg, q.ir)
+				fail("ifrange-200-partial-body", "200 with Content-Length=%s but body has %d bytes and is not the file (Range=%q If-Range=%q)", cl, len(body), q.rg, q.ir)
 			} else {
-				o.Fail("ignored-ranges-200-partial-body", "200 with Content-Length=%s but body has %d bytes and is not the file (Range=%q)", cl, len(body), q.rg)
+				fail("ignored-ranges-200-partial-body", "200 with Content-Length=%s but body has %d bytes and is not the file (Range=%q)", cl, len(body), q.rg)
 			}
 		}
 	case 206:
 		m := crRe.FindStringSubmatch(cr)
 		if m == nil {
-			o.Fail("206-content-range-syntax", "206 Content-Range=%q", cr)
+			fail("206-content-range-syntax", "206 Content-Range=%q", cr)
 			break
 		}
 		a, _ := strconv.ParseInt(m[1], 10, 64)
 		b, _ := strconv.ParseInt(m[2], 10, 64)
 		sz, _ := strconv.ParseInt(m[3], 10, 64)
 		if sz != size || a < 0 || b >= size || a > b+1 {
-			o.Fail("206-content-range-bounds", "Content-Range=%q size=%d", cr, size)
+			fail("206-content-range-bounds", "Content-Range=%q size=%d", cr, size)
 			break
 		}
 		if cl != strconv.FormatInt(b-a+1, 10) {
-			o.Fail("206-content-length", "Content-Range=%q Content-Length=%q", cr, cl)
+			fail("206-content-length", "Content-Range=%q Content-Length=%q", cr, cl)
 		}
 		if q.method == "GET" && !bytes.Equal(body, data[a:b+1]) {
-			o.Fail("206-body-not-content-range-slice", "Content-Range=%q but body (%d bytes) is not that slice (Range=%q)", cr, len(body), q.rg)
+			fail("206-body-not-content-range-slice", "Content-Range=%q but body (%d bytes) is not that slice (Range=%q)", cr, len(body), q.rg)
 		}
 	case 416:
 		if q.rg == "" {
-			o.Fail("416-without-range", "")
+			fail("416-without-range", "")
 		}
 		if wellFormed {
 			for _, s := range specs {
 				if overlaps(s, size) {
-					o.Fail("416-although-overlap", "Range=%q size=%d", q.rg, size)
+					fail("416-although-overlap", "Range=%q size=%d", q.rg, size)
 					break
 				}
 			}
 			if size == 0 {
-				o.Fail("416-on-empty-file", "Range=%q", q.rg)
+				fail("416-on-empty-file", "Range=%q", q.rg)
 			}
 			if cr != fmt.Sprintf("bytes */%d", size) {
-				o.Fail("416-content-range", "Content-Range=%q", cr)
+				fail("416-content-range", "Content-Range=%q", cr)
 			}
-		} else if q.method == "GET" {
-			// HEAD answers 416 for a malformed Range (net/http heritage), GET answers 400
-			o.Fail("416-for-malformed-range", "Range=%q", q.rg)
+		} else {
+			fail("416-for-malformed-range", "%s Range=%q", q.method, q.rg)
 		}
 	case 304, 412:
 		if len(body) != 0 {
-			o.Fail("precondition-response-has-body", "%d with %d body bytes", st, len(body))
+			fail("precondition-response-has-body", "%d with %d body bytes", st, len(body))
 		}
 	case 400:
-		if wellFormed || q.method != "GET" {
-			o.Fail("400-for-wellformed-range", "%s Range=%q", q.method, q.rg)
+		if wellFormed {
+			fail("400-for-wellformed-range", "%s Range=%q", q.method, q.rg)
 		}
 	default:
 		if wellFormed && st >= 500 && !specs[0].hasFirst && specs[0].last > size {
-			o.Fail("suffix-gt-size-error", "%s Range=%q on a file of %d bytes answered %d", q.method, q.rg, size, st)
+			fail("suffix-gt-size-error", "%s Range=%q on a file of %d bytes answered %d", q.method, q.rg, size, st)
 		} else {
-			o.Fail("unexpected-status", "%s Range=%q answered %d", q.method, q.rg, st)
+			fail("unexpected-status", "%s Range=%q answered %d", q.method, q.rg, st)
 		}
 	}
 	// no conditional headers: a well-formed Range none of whose specs overlaps must be 416 (size > 0),
@@ -604,18 +639,18 @@ func monitor(o *vh.Out, w *world, cidStr string, data []byte, q reqSpec, rec *ht
 			any = any || overlaps(s, size)
 		}
 		if !any && st != 416 {
-			o.Fail("no-overlap-not-416", "Range=%q size=%d answered %d", q.rg, size, st)
+			fail("no-overlap-not-416", "Range=%q size=%d answered %d", q.rg, size, st)
 		}
 	}
 	// HEAD must answer like GET (status and the headers of the property) unless GET rejects the Range syntax
 	if q.method == "HEAD" {
 		g := q
 		g.method = "GET"
-		grec := doReq(w, cidStr, g)
+		grec := doReqH(handler, cidStr, g)
 		gres := grec.Result()
-		if gres.StatusCode != 400 && gres.StatusCode < 500 {
+		if gres.StatusCode < 500 {
 			if gres.StatusCode != st || gres.Header.Get("Content-Range") != cr || gres.Header.Get("Content-Length") != cl {
-				o.Fail("head-get-differ", "HEAD %d cr=%q cl=%q, GET %d cr=%q cl=%q (Range=%q)", st, cr, cl,
+				fail("head-get-differ", "HEAD %d cr=%q cl=%q, GET %d cr=%q cl=%q (Range=%q)", st, cr, cl,
 					gres.StatusCode, gres.Header.Get("Content-Range"), gres.Header.Get("Content-Length"), q.rg)
 			}
 		}
@@ -628,21 +663,19 @@ func exec(c vh.Case, o *vh.Out) {
 	var data []byte
 	var spec fileSpec
 	have := false
-	var mtimeOf int64
-	_ = mtimeOf
 	for _, line := range c.Ops {
 		f := strings.Fields(line)
 		switch {
-		case f[0] == "file" && len(f) == 12:
+		case f[0] == "file" && len(f) == 13:
 			spec = fileSpec{seed: vh.Atoi(f[1]), size: vh.Atoi(f[2]), layout: f[3], chunk: vh.Atoi(f[4]), links: vh.Atoi(f[5]),
 				raw: f[6] == "1", cidv: vh.Atoi(f[7])}
-			spec.mtime, _ = strconv.ParseInt(f[8], 10, 64)
+			fmt.Sscanf(f[8], "%d.%d", &spec.mtime, &spec.mnanos)
 			got, d, actual, err := importFile(w, spec)
 			if err != nil {
 				o.Emit("import-error")
 				continue
 			}
-			if got != f[9] || assets.AssetHash != f[10] || strconv.FormatInt(actual, 10) != f[11] {
+			if got != f[9] || assets.AssetHash != f[10] || actual != f[11]+" "+f[12] {
 				// the CID in the op line is a parameter of the model; it must be the real one
 				o.Emit("cid-mismatch")
 				continue
@@ -657,10 +690,12 @@ func exec(c vh.Case, o *vh.Out) {
 			} else if spec.raw && spec.cidv == 1 {
 				o.Kind("raw-root")
 			}
-			if actual != 0 {
+			if actual != "0 0" {
 				o.Kind("mtime")
+				if f[12] != "0" {
+					o.Kind("mtime-subsecond")
+				}
 			}
-			mtimeOf = actual
 			o.Emit("ok %d", len(data))
 		case f[0] == "req" && len(f) == 12 && have:
 			if f[1] != "GET" && f[1] != "HEAD" {
@@ -674,7 +709,26 @@ func exec(c vh.Case, o *vh.Out) {
 				continue
 			}
 			rec := doReq(w, cidStr, q)
-			monitor(o, w, cidStr, data, q, rec)
+			monitor(o.Fail, w.handler, cidStr, data, q, rec)
+			// The same GET against the CAR backend (monitor only; the model is the BlocksBackend path). Its file
+			// reader only has the blocks of the byte range the backend asked upstream for, which was chosen from the
+			// first length-less range, so it cannot be repositioned: the divergences (a), (b), (d) are evaluated there.
+			// Everything else the CarBackend does differently (5xx from partial CARs, HEAD) is counted, not judged:
+			// backend_car.go is not part of this property's mechanism.
+			if q.method == "GET" && q.rg != "" && len(data) <= 20000 && len(data)/spec.chunk <= 300 {
+				crec := doReqH(w.carHandler, cidStr, q)
+				monitor(func(sig string, format string, a ...any) {
+					switch sig {
+					case "ifrange-200-partial-body", "206-body-not-content-range-slice", "ignored-ranges-200-partial-body", "suffix-gt-size-error":
+						o.Fail("car-"+sig, format, a...)
+					default:
+						o.Kind("car-other:" + sig)
+					}
+				}, w.carHandler, cidStr, data, q, crec)
+				if crec.Result().StatusCode == rec.Result().StatusCode && bytes.Equal(crec.Body.Bytes(), rec.Body.Bytes()) {
+					o.Kind("car-same-as-blocks")
+				}
+			}
 			st := rec.Result().StatusCode
 			o.Kind(fmt.Sprintf("%s-%d", q.method, st))
 			if specs, ok := readRange(q.rg); ok {
@@ -723,12 +777,12 @@ func main() {
 		a := os.Args[2:]
 		s := fileSpec{seed: vh.Atoi(a[0]), size: vh.Atoi(a[1]), layout: a[2], chunk: vh.Atoi(a[3]), links: vh.Atoi(a[4]),
 			raw: a[5] == "1", cidv: vh.Atoi(a[6])}
-		s.mtime, _ = strconv.ParseInt(a[7], 10, 64)
+		fmt.Sscanf(a[7], "%d.%d", &s.mtime, &s.mnanos)
 		c, _, actual, err := importFile(getWorld(), s)
 		if err != nil {
 			panic(err)
 		}
-		fmt.Printf("file %s %s %s %d\n", s, c, assets.AssetHash, actual)
+		fmt.Printf("file %s %s %s %s\n", s, c, assets.AssetHash, actual)
 		return
 	}
 	vh.Main(vh.Config{Gen: gen, Exec: exec})
